@@ -59,7 +59,7 @@ pub const BUDGETS: [u64; 8] = [0, 1, 100, 1199, 1200, 1201, 2500, 60_000];
 pub static INFO: PropInfo = PropInfo {
     id: "C14",
     level: "exploration",
-    rule: "one evaluation = one simulated session (1-2 connections, both directions) with available_bytes_per_tick drawn from {0, 1, 100, 1199, 1200, 1201, 2500, 60000}, 1-4 channels per direction of all three kinds in random order (resend 0/10/100/300 ms), message lengths centred on the budget (A-1, A, A+1), on 0/1 and on the slice boundaries (1199..1201, 2399..2401, k*1200-1/0/+1) plus random small and sliced ones, lossy / blackout / lose-first links so that retransmission backlogs compete with fresh messages, sometimes several get_packets_to_send calls per tick, and in half of the sessions 25-50 % of the (endpoint, tick) pairs without any (the next call then follows two or more update() calls). Every call is decoded and judged by the three necessary conditions (sum <= budget; a due, certainly unacknowledged reliable item left out would not have fitted into what its channel left; an unreliable message is whole or absent, absent only if it would not have fitted, never resurrected). Non-trivial = at least one item waited or was dropped for lack of budget AND at least one retransmission happened AND at least two channels carried payload in the run; distinct = distinct event-log fingerprints.",
+    rule: "one evaluation = one simulated session (1-2 connections, both directions) with available_bytes_per_tick drawn from {0, 1, 100, 1199, 1200, 1201, 2500, 60000}, 1-4 channels per direction of all three kinds in random order (resend 0/10/100/300 ms), message lengths centred on the budget (A-1, A, A+1), on 0/1 and on the slice boundaries (1199..1201, 2399..2401, k*1200-1/0/+1) plus random small and sliced ones, lossy / blackout / lose-first links so that retransmission backlogs compete with fresh messages, sometimes several get_packets_to_send calls per tick, and in half of the sessions 25-50 % of the (endpoint, tick) pairs without any (the next call then follows two or more update() calls). Every call is decoded and judged by the three necessary conditions (sum <= budget; a due, certainly unacknowledged reliable item left out would not have fitted into what its channel left; an unreliable message is whole or absent, absent only if it would not have fitted, never resurrected). One run in 16 is a SLICE-TURNS run: one sliced reliable message of n slices, a budget of 1-4 slices per call, resend times of 0-50 ms and no acknowledgements at all (already-sent slices become due again before the others had their first turn): within ceil(n / slices per call) + 2 calls every slice must have been transmitted at least once. Non-trivial = at least one item waited or was dropped for lack of budget AND at least one retransmission happened AND at least two channels carried payload in the run; distinct = distinct event-log fingerprints.",
     assumptions: &[
         "message payload bytes = lengths of the messages / slice payloads found by the crate's own decoder in the packets of the call (headers and ack packets are not counted, as in the statement)",
         "a slice that any delivered Ack packet may have acknowledged is never judged (the sent-packet table forgets packets after 3 s, so such an ack may or may not have been effective)",
@@ -68,6 +68,7 @@ pub static INFO: PropInfo = PropInfo {
     ],
     gates: &[
         ("calls_judged", 5000),
+        ("slice_turn_runs", 20),
         ("budget.0", 200),
         ("budget.1", 200),
         ("budget.100", 200),
@@ -558,8 +559,62 @@ fn pick_len(r: &mut Rng, a: u64, cap: usize) -> usize {
     v.min(cap)
 }
 
+/// "What does not fit waits for a later tick (slice by slice)": one sliced reliable message larger than the tick budget,
+/// nothing else queued, no acknowledgement ever arrives (so already-sent slices become due again while others have not
+/// had their first turn). Within ceil(n / slices-per-tick) + 2 calls every slice must have been transmitted at least
+/// once: the budget of a later tick goes to what did not fit before.
+fn slice_turns(ctx: &Ctx, out: &mut Outcome, run_seed: u64, r: &mut Rng) {
+    use bytes::Bytes;
+    use renet::{ChannelConfig, ConnectionConfig, RenetClient, SendType};
+    use std::time::Duration;
+    let per_tick = r.urange(1, 4);
+    let budget = (per_tick * 1200 + r.urange(0, 1199)) as u64;
+    let n = per_tick + r.urange(2, 16);
+    let resend = *r.pick(&[0u64, 16, 50]);
+    let dt = *r.pick(&[16u64, 50, 100]);
+    let ordered = r.chance(1, 2);
+    let st = if ordered { SendType::ReliableOrdered { resend_time: Duration::from_millis(resend) } } else { SendType::ReliableUnordered { resend_time: Duration::from_millis(resend) } };
+    let chans = vec![ChannelConfig { channel_id: 3, max_memory_usage_bytes: 1 << 20, send_type: st }];
+    let mut c = RenetClient::new(ConnectionConfig { available_bytes_per_tick: budget, server_channels_config: chans.clone(), client_channels_config: chans });
+    c.set_connected();
+    let len = (n - 1) * 1200 + r.urange(1, 1200);
+    c.send_message(3, Bytes::from(vec![7u8; len]));
+    let calls = n.div_ceil(per_tick) + 2;
+    let mut seen = vec![0u32; n];
+    let mut per_call: Vec<Vec<usize>> = Vec::new();
+    for _ in 0..calls {
+        let mut this = Vec::new();
+        for p in c.get_packets_to_send() {
+            if let Some(renet::verif::Packet::ReliableSlice { slice, .. }) = crate::rsim::decode(&p) {
+                if slice.slice_index < n {
+                    seen[slice.slice_index] += 1;
+                    this.push(slice.slice_index);
+                }
+            }
+        }
+        per_call.push(this);
+        c.update(Duration::from_millis(dt));
+    }
+    out.count("slice_turn_runs");
+    out.eval(crate::rng::mix(&[0x5117, run_seed, n as u64, per_tick as u64]), true);
+    let never: Vec<usize> = (0..n).filter(|i| seen[*i] == 0).collect();
+    if !never.is_empty() {
+        out.violation(
+            ctx,
+            "C14/slice-never-given-its-turn",
+            "what does not fit waits for a later tick on reliable channels, slice by slice for sliced messages",
+            format!("{} slices, budget {} bytes per call ({} slices), resend {} ms, tick {} ms, no acknowledgements: after {} calls slices {:?} were never transmitted; slices per call: {:?}", n, budget, per_tick, resend, dt, calls, never, per_call),
+            json!({"property": "C14", "engine": ctx.engine, "run_seed": format!("{:#x}", run_seed), "mode": "slice-turns", "slices": n, "budget": budget, "per_call": per_call}),
+        );
+    }
+}
+
 pub fn one_run(ctx: &Ctx, out: &mut Outcome, run_seed: u64) {
     let mut r = Rng::new(run_seed);
+    if ctx.replay_mode.as_deref() == Some("slice-turns") || (ctx.replay_mode.is_none() && (run_seed >> 5) % 16 == 0) {
+        let mut r2 = Rng::new(run_seed ^ 0x5117);
+        return slice_turns(ctx, out, run_seed, &mut r2);
+    }
     // every shard walks through all budgets
     let budget = BUDGETS[(r.below(8)) as usize];
     let cfg = gen_cfg(&mut r, budget);
